@@ -31,15 +31,16 @@ func (a addr) String() string  { return string(a) }
 type Listener struct {
 	Clock *Clock
 
-	mu       sync.Mutex
-	cond     *sync.Cond
-	queue    []*Conn
-	closed   bool
-	closes   int
-	accepts  int
-	nextID   int
-	waiting  bool
-	acceptAt []int64
+	mu        sync.Mutex
+	cond      *sync.Cond
+	queue     []*Conn
+	closed    bool
+	acceptErr error
+	closes    int
+	accepts   int
+	nextID    int
+	waiting   bool
+	acceptAt  []int64
 }
 
 func NewListener(clock *Clock) *Listener {
@@ -54,7 +55,7 @@ func NewListener(clock *Clock) *Listener {
 func (l *Listener) Accept() (net.Conn, error) {
 	l.mu.Lock()
 	defer l.mu.Unlock()
-	for len(l.queue) == 0 && !l.closed {
+	for len(l.queue) == 0 && !l.closed && l.acceptErr == nil {
 		l.waiting = true
 		l.cond.Broadcast()
 		l.cond.Wait()
@@ -62,6 +63,11 @@ func (l *Listener) Accept() (net.Conn, error) {
 	l.waiting = false
 	if l.closed {
 		return nil, net.ErrClosed
+	}
+	if l.acceptErr != nil {
+		err := l.acceptErr
+		l.acceptErr = nil
+		return nil, err
 	}
 	c := l.queue[0]
 	l.queue = l.queue[1:]
@@ -80,6 +86,22 @@ func (l *Listener) Close() error {
 	l.closed = true
 	l.cond.Broadcast()
 	return nil
+}
+
+// FailAccept makes the next Accept call (a parked one included) return err, as a
+// listener does when the process runs out of descriptors or the interface goes away.
+func (l *Listener) FailAccept(err error) {
+	l.mu.Lock()
+	l.acceptErr = err
+	l.cond.Broadcast()
+	l.mu.Unlock()
+}
+
+// Parked reports whether the accept loop waits in Accept with nothing to hand out.
+func (l *Listener) Parked() bool {
+	l.mu.Lock()
+	defer l.mu.Unlock()
+	return l.waiting && len(l.queue) == 0 && l.acceptErr == nil && !l.closed
 }
 
 func (l *Listener) Addr() net.Addr { return addr("memnet:listener") }
